@@ -4,6 +4,7 @@ import (
 	"context"
 	"fmt"
 	"strings"
+	"time"
 
 	"github.com/libp2p/go-libp2p/core/peer"
 
@@ -438,6 +439,81 @@ func c05RestartExisting(x *mc.Cell) {
 	}
 }
 
+// persistedInCleanup drives a channel of role r into a cleanup status, lets the process "die" there (the cleanup is
+// parked inside the transport) and returns a new node on the same store, where the channel rests in that status.
+func persistedInCleanup(n *Node, r Role, ending string) (*Node, datatransfer.ChannelID, bool) {
+	chid := Setup(n, r, "ongoing")
+	gate := make(chan struct{})
+	n.Tr.Fail = func(c doubles.TCall) error {
+		if c.Op == "cleanup" {
+			<-gate
+		}
+		return nil
+	}
+	switch ending {
+	case "cancel":
+		mc.Go(func() { _ = n.Mgr.CloseDataTransferChannel(context.Background(), chid) })
+	case "error":
+		_ = n.H().OnChannelCompleted(chid, errTransfer)
+	}
+	mc.Wait()
+	img := n.DS.Image()
+	close(gate)
+	mc.Wait()
+	n2, err := NewNode(Opts{DS: doubles.NewRecDSFrom(img), Types: []string{"T"}})
+	if err != nil {
+		panic(err)
+	}
+	v0, err := n2.Vec(chid)
+	want := map[string]datatransfer.Status{"cancel": datatransfer.Cancelling, "error": datatransfer.Failing}[ending]
+	return n2, chid, err == nil && v0.Status == want
+}
+
+// c05RestartExistingInCleanup: a restart-existing-channel request that is not legitimate (from a stranger, from
+// ourselves, or naming a channel we did not initiate) must leave a channel untouched also when that channel rests
+// in a cleanup status after a process restart (its cleanup was interrupted): no transport call, no event, the
+// persisted record byte-identical.
+func c05RestartExistingInCleanup(x *mc.Cell) {
+	type tc struct {
+		name   string
+		role   Role
+		sender peer.ID
+	}
+	var cases []tc
+	for _, r := range []Role{CreatedPush, CreatedPull} {
+		cases = append(cases, tc{"from-stranger", r, doubles.PeerC}, tc{"from-self", r, doubles.PeerA})
+	}
+	for _, r := range []Role{ReceivedPush, ReceivedPull} {
+		cases = append(cases, tc{"receiver-did-not-initiate/from-counterparty", r, doubles.PeerB}, tc{"receiver-did-not-initiate/from-stranger", r, doubles.PeerC})
+	}
+	for _, c := range cases {
+		for _, ending := range []string{"cancel", "error"} {
+			c, ending := c, ending
+			rep := map[string]any{"case": c.name, "role": RoleNames[c.role], "ending": ending}
+			run(x, "C05", Opts{Types: []string{"T"}}, rep, func(n *Node) {
+				n2, chid, ok := persistedInCleanup(n, c.role, ending)
+				defer n2.Stop()
+				if !ok {
+					x.Note("cleanup_image_not_in_cleanup_status", 1)
+					return
+				}
+				before := digestOf(n2, chid)
+				mk := n2.Mark()
+				n2.RecvRequest(c.sender, message.RestartExistingChannelRequest(chid))
+				time.Sleep(time.Second)
+				mc.Wait()
+				d := n2.Since(mk)
+				x.Premise++
+				x.Outcome(fmt.Sprintf("%s|%s|%s|%d", c.name, RoleNames[c.role], ending, len(d.TCalls)))
+				ctx := fmt.Sprintf("case=%s role=%s persisted ending=%s\n  %s", c.name, RoleNames[c.role], ending, d)
+				if len(d.TCalls) != 0 || len(d.Sends) != 0 || len(d.Events) != 0 || digestOf(n2, chid) != before {
+					x.Violate("C05", fmt.Sprintf("restart-existing;illegitimate-request-acted-on-channel-in-cleanup;case=%s;role=%s", c.name, RoleNames[c.role]), "a restart-existing-channel request that this node must ignore changed a channel resting in a cleanup status: "+ctx, rep)
+				}
+			})
+		}
+	}
+}
+
 // ---- local role checks
 
 func c05LocalRoles(x *mc.Cell) {
@@ -505,6 +581,7 @@ func init() {
 	}
 	mc.Register("C05", "restart-mutations", "both", c05RestartMutations)
 	mc.Register("C05", "restart-existing", "both", c05RestartExisting)
+	mc.Register("C05", "restart-existing-on-a-channel-resting-in-cleanup", "both", c05RestartExistingInCleanup)
 	mc.Register("C05", "local-roles", "both", c05LocalRoles)
 }
 
